@@ -7,6 +7,11 @@ RULE = ("cases are generated per helper (workload, range, linspace, logspace, cl
         "non-trivial = workload with remainder != 0, or closest with a tie / out-of-range target / duplicates, or a clamped "
         "Sub_List index, or a ragged/rectangular transpose with >1 row and >1 column, or range with a step that does not divide "
         "the span, or a grid with >= 3 points, or a data set with >= 3 distinct values; distinct by case text")
+LEVEL_TEXT = ("Theorems (Coq, unbounded): Workload_Distribution meets its full specification for every workers >= 1 and every tasks; "
+              "further helper theorems as listed in evidence.coverage.theorems. The Gallina model is the term that is extracted and run against "
+              "the C++ helpers on every run (bit-identical on all generated cases), and every clause of the property is also evaluated on the implementation's output.")
+LEVEL_NOTE = ("Coq 8.16.1 kernel; theorems over Z/nat/lists are axiom-free, theorems over R use the standard library's real-number axioms (listed in the evidence); "
+              "hand-written model tied by differential correspondence (extraction with ExtrOcamlBasic only); std::nth_element/upper_bound/is_sorted modelled by their specifications")
 TOL = (1e-12, 0.0)
 TRUSTED = ["std::nth_element / std::upper_bound / std::is_sorted are modelled by their specifications (k-th smallest, first element greater than the target, adjacent order)"]
 
